@@ -938,6 +938,9 @@ def run(ctx):
                             mm('MPS features', spec, {'layer': int(i), 'model': feat, 'impl': d, 'masks': r['masks']})
                         if list(al) != r.get('alive_ref', {}).get(int(i)):
                             mm('MPS alive (Coq ground truth vs python reference)', spec, {'layer': int(i), 'model': al, 'python': r.get('alive_ref', {}).get(int(i))})
+            # the model GENERATED from features_calculation.py on this run: features, features_mask, definedness, buffer names
+            GEN.correspond(ctx, ok_cases, coq_net, mm)
+            GEN.correspond(ctx, mps_cases, coq_net, mm, mps=True)
         except (RuntimeError, AssertionError, KeyError, IndexError, TypeError, ValueError) as ex:
             model_ok = False
             ctx.notes.append('model evaluation failed: ' + (str(ex) or repr(ex))[-1500:] + traceback.format_exc()[-800:])
